@@ -25,7 +25,8 @@ Empty == [scen |-> "", engine |-> "", srcs |-> {}, feats |-> {}, maxRetries |-> 
           startCalls |-> 0,       \* Start calls issued
           startOpen |-> FALSE,    \* a Start call is in flight
           sinceStart |-> [stopOk |-> FALSE, stopAll |-> FALSE, force |-> FALSE, forceOk |-> FALSE,
-                          recAfterForce |-> 0, opens |-> 0, recOpens |-> 0, degraded |-> FALSE],
+                          recAfterForce |-> 0, opens |-> 0, recOpens |-> 0, degraded |-> FALSE, stopCalled |-> FALSE],
+          runFault |-> FALSE,     \* a plain (non-sentinel) read / write error was injected into the current run
           stopArmed |-> FALSE,    \* a stop call was issued while the pipeline was reported running, with a live
                                   \* run and no start in flight, and nothing has happened to the run since
           recPending |-> FALSE,   \* status Recovering was written and the recovery restart has not opened the source yet
@@ -39,7 +40,7 @@ Add(cond, inv, what) == IF cond THEN {} ELSE {V(inv, what)}
 Get(f, k) == IF k \in DOMAIN f THEN f[k] ELSE 0
 Put(f, k, v) == IF k \in DOMAIN f THEN [f EXCEPT ![k] = v] ELSE f @@ (k :> v)
 Fresh == [stopOk |-> FALSE, stopAll |-> FALSE, force |-> FALSE, forceOk |-> FALSE, recAfterForce |-> 0,
-          opens |-> 0, recOpens |-> 0, degraded |-> FALSE]
+          opens |-> 0, recOpens |-> 0, degraded |-> FALSE, stopCalled |-> FALSE]
 
 Reset ==
   /\ IsEvent("Reset")
@@ -67,9 +68,9 @@ Call ==
              \* a user Start while a recovery restart is pending: the next open is the user's, not recovery's
              THEN [st EXCEPT !.startCalls = @ + 1, !.startOpen = TRUE, !.sinceStart = Fresh, !.recPending = FALSE,
                              !.recTimes = <<>>]
-           ELSE IF Ev.call = "StopAll" THEN [st EXCEPT !.sinceStart.stopAll = TRUE]
+           ELSE IF Ev.call = "StopAll" THEN [st EXCEPT !.sinceStart.stopAll = TRUE, !.sinceStart.stopCalled = TRUE]
            ELSE IF Ev.call \in {"Stop", "StopAndWait", "ForceStop"}
-             THEN [st EXCEPT !.sinceStart.force = @ \/ Ev.call = "ForceStop",
+             THEN [st EXCEPT !.sinceStart.force = @ \/ Ev.call = "ForceStop", !.sinceStart.stopCalled = TRUE,
                              !.stopArmed = Ev.reported = "Running" /\ ~st.startOpen /\ SrcLive]
            ELSE st
   /\ UNCHANGED viol
@@ -109,6 +110,11 @@ Durable ==
                  \* running on its own (only a Start call may do that)
                  \cup Add(~(Ev.status \in {Recovering} /\ st.status \in Stopped \cup {Degraded} /\ st.startCalls > 0
                             /\ ~st.startOpen), "StoppedStaysStopped", <<st.status, Ev.status>>)
+                 \* C10: a run into which a plain read / write error was injected, and which nobody asked to stop,
+                 \* does not end as "stopped by the user": the failure is classified (Recovering / Degraded)
+                 \cup Add(~(Ev.status = UserStopped /\ st.runFault /\ ~st.sinceStart.stopCalled /\ st.startCalls > 0
+                            /\ ~st.restartCheck), "TransientRecovers",
+                          "a failed run was stored as stopped by the user although no stop was requested")
      ELSE IF Ev.class = "connector" /\ Ev.id \in st.srcs /\ ~("del" \in DOMAIN Ev)
        THEN st' = [st EXCEPT !.stored = Put(@, Ev.id, Ev.idx)] /\ UNCHANGED viol
      ELSE UNCHANGED <<st, viol>>
@@ -119,7 +125,7 @@ Open ==
      ELSE IF Ev.kind = "source" /\ Ev.conn \in st.srcs
        THEN LET recovery == st.recPending /\ ~st.startOpen IN
             /\ st' = [st EXCEPT !.live = Put(@, Ev.conn, Get(@, Ev.conn) + 1),
-                                !.recPending = FALSE,
+                                !.recPending = FALSE, !.runFault = FALSE,
                                 !.sinceStart.opens = @ + 1,
                                 !.sinceStart.recOpens = IF recovery THEN @ + 1 ELSE @,
                                 !.recTimes = IF recovery THEN Append(@, Ev.t) ELSE @,
@@ -196,6 +202,8 @@ Hang  == IsEvent("Hang")  /\ viol' = viol \cup {V("NoHang", Ev.call)} /\ UNCHANG
 Panic == IsEvent("Panic") /\ viol' = viol \cup {V("NoPanic", Ev.stderr)} /\ UNCHANGED st
 Fault == IsEvent("Fault") /\ UNCHANGED viol
          /\ st' = [st EXCEPT !.stopArmed = FALSE,
+                             !.runFault = @ \/ (Ev.what \in {"read-err", "write-err"} /\ "err" \in DOMAIN Ev
+                                                /\ Ev.err \notin {"", "EOF", "canceled", "deadline", "wrap:EOF", "wrap:canceled", "wrap:deadline"}),
                              !.statusWriteFailed = @ \/ (Ev.what = "store-set" /\ "key" \in DOMAIN Ev /\ Ev.key = "pipeline:instance:pl")]
 Restore == IsEvent("Restore") /\ st' = [st EXCEPT !.live = <<>>] /\ UNCHANGED viol
 HarnessError == (IsEvent("HarnessError") \/ IsEvent("ChildTimeout")) /\ st' = [st EXCEPT !.bad = TRUE] /\ UNCHANGED viol
